@@ -301,6 +301,10 @@ func genReal(t *rapid.T) RCase {
 func accountReal(c RCase, s rstats) {
 	vcore.E.Eval()
 	vcore.E.Class("real_timers")
+	if len(c.Sess) > 64 && c.BusyPct >= 100 {
+		vcore.E.Class("real_timers:more_expiries_than_the_timer_queue_holds_while_the_loop_is_busy")
+		vcore.E.NonTrivial(vcore.JSON(c))
+	}
 	if s.failed && c.MaxRetrans > 0 {
 		vcore.E.Class("real_timers:retransmissions_attempted_while_the_socket_refused_writes")
 		vcore.E.NonTrivial(vcore.JSON(c))
